@@ -4,6 +4,7 @@ package main
 // `verif` build tag, contract files, name resolution helpers.
 
 import (
+	"encoding/json"
 	"fmt"
 	"go/token"
 	"go/types"
@@ -61,6 +62,7 @@ type Prog struct {
 	closesUnder       map[string][]guardedField
 	finalFa           map[string]bool     // fa function of a field declared final
 	mayLockCache      map[*ssa.Function]bool
+	paramAlias        map[*ssa.Function]map[string]string // contract's parameter name -> current name
 	FinalChecks       []*FinalCheck       // one per declared final field
 	ContractFilesUsed []string
 	MirrorUsed        []string
@@ -749,4 +751,62 @@ func (p *Prog) finalFieldWrites(T types.Type, fi int) []string {
 	}
 	sort.Strings(bad)
 	return bad
+}
+
+// paramNamesOf lists receiver and parameter names in order.
+func paramNamesOf(f *ssa.Function) []string {
+	var out []string
+	for _, p := range f.Params {
+		out = append(out, p.Name())
+	}
+	return out
+}
+
+// loadParamAliases compares the parameter names recorded with the baseline to the
+// current ones: same position, different name = a rename the contracts need not follow.
+func (p *Prog) loadParamAliases(verifDir string) {
+	b, err := os.ReadFile(filepath.Join(verifDir, "baseline", "params.json"))
+	if err != nil {
+		return
+	}
+	var rec map[string][]string
+	if json.Unmarshal(b, &rec) != nil {
+		return
+	}
+	p.paramAlias = map[*ssa.Function]map[string]string{}
+	for key, f := range p.Funcs {
+		old, ok := rec[key]
+		if !ok {
+			continue
+		}
+		cur := paramNamesOf(f)
+		if len(cur) != len(old) {
+			continue
+		}
+		taken := map[string]bool{}
+		for _, n := range cur {
+			taken[n] = true
+		}
+		for i := range cur {
+			if cur[i] != old[i] && !taken[old[i]] && old[i] != "" && old[i] != "_" {
+				if p.paramAlias[f] == nil {
+					p.paramAlias[f] = map[string]string{}
+				}
+				p.paramAlias[f][old[i]] = cur[i]
+				p.paramAlias[f][old[i]+"$entry"] = cur[i] + "$entry"
+			}
+		}
+	}
+}
+
+func (p *Prog) writeParamBaseline(verifDir string) {
+	rec := map[string][]string{}
+	for key, f := range p.Funcs {
+		if _, ok := p.Contracts[f]; ok {
+			rec[key] = paramNamesOf(f)
+		}
+	}
+	b, _ := json.MarshalIndent(rec, "", " ")
+	os.MkdirAll(filepath.Join(verifDir, "baseline"), 0o755)
+	os.WriteFile(filepath.Join(verifDir, "baseline", "params.json"), append(b, '\n'), 0o644)
 }
